@@ -124,7 +124,7 @@ def initial_conditions(rng, H, idx, mode):
 
 
 def run(ctx):
-    H = 10 if ctx.quick else 120
+    H = 10 if ctx.quick else 300
     for mode in ("position_control", "se23_loglinear"):
         built = build_step(ctx, mode)
         if built is None:
